@@ -579,11 +579,17 @@ def r05_5(ctx: Ctx, rep: Report) -> None:
             if first is None:
                 rep.ok(f"{f.qualname}: try around {snippet(hit, 40)}", "no handler catches NetmaskValueError", where=where(f, t))
                 continue
-            reraises = _always_reraises(first)
+            reraises = _always_reraises(first) or _reraises_class(first, "NetmaskValueError")
+            governed = f.qualname if f.qualname in C12_GOVERNED else None
+            if governed is None and f.cls is not None and f.name.startswith("_"):
+                # a private helper extracted from a governed member loop: all its callers are that loop's function
+                cs = {g.qualname for g in ctx.prog.funcs for e in ctx.cg.all_edges(g) if e.target is f and not e.weak}
+                if cs and cs <= set(C12_GOVERNED):
+                    governed = sorted(cs)[0]
             if reraises:
                 rep.ok(f"{f.qualname}: except {', '.join(handler_classes(first)) or '<bare>'}", "first matching handler re-raises the limit rejection", where=where(f, first))
-            elif f.qualname in C12_GOVERNED:
-                rep.ok(f"{f.qualname}: except {', '.join(handler_classes(first))}", C12_GOVERNED[f.qualname], nontrivial=False, where=where(f, first))
+            elif governed is not None:
+                rep.ok(f"{f.qualname}: except {', '.join(handler_classes(first))}", C12_GOVERNED[governed], nontrivial=False, where=where(f, first))
             else:
                 rep.violation(
                     f.qualname,
@@ -685,6 +691,24 @@ def r05_6(ctx: Ctx, rep: Report) -> None:
                                     inp='a = Address("10.0.0.0 0.0.3.3", max_ncwb=16); a.max_ncwb = 1; a.line = "10.0.0.0 0.0.5.5"  # accepted',
                                 )
     rep.floor(8, "constructions that hand over the owner's settings")
+
+
+def _reraises_class(h: ast.ExceptHandler, cls_name: str) -> bool:
+    """The handler starts with `if isinstance(<caught>, <cls_name or a base of it that is not the handler's own class>): raise`."""
+    body = [s for s in h.body if not (isinstance(s, ast.Expr) and isinstance(s.value, ast.Constant))]
+    if not body or not h.name:
+        return False
+    st = body[0]
+    if not isinstance(st, ast.If) or st.orelse:
+        return False
+    t = st.test
+    if not (isinstance(t, ast.Call) and isinstance(t.func, ast.Name) and t.func.id == "isinstance" and len(t.args) == 2 and src(t.args[0]) == h.name):
+        return False
+    names = [src(e) for e in t.args[1].elts] if isinstance(t.args[1], ast.Tuple) else [src(t.args[1])]
+    if not any(exc_is_subclass(cls_name, n.split(".")[-1]) for n in names):
+        return False
+    last = st.body[-1] if st.body else None
+    return isinstance(last, ast.Raise) and (last.exc is None or src(last.exc) == h.name) and all(not isinstance(x, (ast.Return, ast.Continue, ast.Break)) for x in st.body[:-1])
 
 
 def _always_reraises(h: ast.ExceptHandler) -> bool:
